@@ -474,8 +474,8 @@ class CfgCtl:
         self.closed = False
         ch = sim.ctx.ch
         # shape: blocks 0..n-1 (0 = entry); succ[b] = list of targets (block index or "exit")
-        shape = ch.draw(5, "cfg-shape")
-        n = {0: 1 + ch.draw(3, "cfg-n"), 1: 4, 2: 3, 3: 3, 4: 2}[shape]
+        shape = ch.draw(7, "cfg-shape")
+        n = {0: 1 + ch.draw(3, "cfg-n"), 1: 4, 2: 3, 3: 3, 4: 2, 5: 2, 6: 6}[shape]
         if shape == 0:  # chain
             succ = {i: [i + 1] for i in range(n - 1)}
             succ[n - 1] = ["exit"]
@@ -485,8 +485,12 @@ class CfgCtl:
             succ = {0: [1], 1: [1, 2], 2: ["exit"]}
         elif shape == 3:  # multi-exit 0 -> (1 | exit), 1 -> (2 | exit), 2 -> exit
             succ = {0: [1, "exit"], 1: [2, "exit"], 2: ["exit"]}
-        else:  # both branches of the entry lead to the same block (parallel control-flow edges), then both to exit
+        elif shape == 4:  # both branches of the entry lead to the same block (parallel control-flow edges), then both to exit
             succ = {0: [1, 1], 1: ["exit", "exit"]}
+        elif shape == 5:  # four parallel edges into one block
+            succ = {0: [1, 1, 1, 1], 1: ["exit"]}
+        else:  # 4-way switch whose arms all jump to one join block
+            succ = {0: [1, 2, 3, 4], 1: [5], 2: [5], 3: [5], 4: [5], 5: ["exit"]}
         self.n = n
         self.succ = succ
         self.shape = shape
@@ -621,6 +625,7 @@ class BuilderSim:
         self.consts = []  # (node, type, parent_idx)
         self.handles = []  # (handle, expected output count, producer)
         self.deps = {}
+        self.scratch = []
         self.meta = {}
         self.funcs = []  # dict(node, name, sig(PolyFuncType), params)
         self.module = None
@@ -898,10 +903,11 @@ class BuilderSim:
             2 if (self.funcs and f.get("calls", True)) else 0,  # call / load_function
             w_close,
             0 if deep or not f.get("insert", False) else 1,  # insert a detached builder
+            1 if f.get("holes", True) else 0,  # scratch node added now, deleted later: freed indices get reused
         ]
         k = ch.weighted(weights, "actor-step")
         [self.step_leaf, self.step_load, self.step_nested, self.step_cond, self.step_loop, self.step_cfg,
-         self.step_order, self.step_call, lambda a: a.close(), self.step_insert][k](a)
+         self.step_order, self.step_call, lambda a: a.close(), self.step_insert, self.step_scratch][k](a)
 
     # ---- steps ------------------------------------------------------------------------------------------
     def maybe_meta(self):
@@ -1119,6 +1125,21 @@ class BuilderSim:
         a.dep_local(ws, b.parent_node.idx)
         self.actors.append(CfgCtl(self, a, b, [w.ty for w in ws], out_row))
         self.ctx.probe("cfg")
+
+    def step_scratch(self, a: Actor):
+        """Graph-level edit in the middle of a builder program: add an unused constant definition, or delete one added
+        earlier.  The HUGR stays valid (a Const is a scoped definition, unused it has no edges); the freed index is
+        reused by whatever is created next, so children are no longer in index order and a child can have a smaller
+        index than its parent."""
+        ch = self.ctx.ch
+        t = T()
+        if self.scratch and ch.coin(1, 2, "scratch-delete"):
+            n = self.scratch.pop(ch.draw(len(self.scratch), "which-scratch"))
+            a.call("delete_node", self.hugr.delete_node, n)
+            self.ctx.probe("index_hole_in_builder_program")
+        else:
+            n = a.call("add_const(scratch)", self.hugr.add_const, t.val.TRUE, a.b.parent_node)
+            self.scratch.append(n)
 
     def step_insert(self, a: Actor):
         """Build a detached container (own Hugr, own interleaved sub-simulation) and attach it with insert_*."""
